@@ -29,6 +29,19 @@ FILES = ["f1.txt", "f2.dat", "sub/f3.txt"]
 KNOWN_SEEN = set()
 
 
+def dep_trigger(cur, new):
+    """does assigning `new` over `cur` hit the dependency findings F23 / F24 (excluded from the generated scope)?"""
+    for k, v in new.items():
+        if k in cur:
+            if v is None and isinstance(cur[k], (dict, list)):
+                return True
+            if not isinstance(v, (dict, list)) and not isinstance(cur[k], (dict, list)) and cur[k] == v and type(cur[k]) is not type(v):
+                return True
+            if isinstance(v, dict) and isinstance(cur[k], dict) and dep_trigger(cur[k], v):
+                return True
+    return False
+
+
 class Harness:
     def __init__(self, rnd, nproj=2, log=None):
         import signac
@@ -233,10 +246,16 @@ class Harness:
         hp = self.hproj(job)
         old = job.id
         cur = json.loads(json.dumps(job.statepoint()))
-        how = self.rnd.choice(["setitem", "del", "assign", "update", "update_conflict", "nested"])
+        how = self.rnd.choice(["setitem", "del", "assign", "update", "update_conflict", "nested", "collide"])
         newsp = copy.deepcopy(cur)
         try:
-            if how == "setitem":
+            others = [sp for jid, (sp, _, _) in self.model[hp].items() if jid != old]
+            others = [o for o in others if not dep_trigger(cur, o)]
+            if how == "collide" and others and old in self.model[hp]:
+                newsp = copy.deepcopy(self.rnd.choice(others))      # re-key onto an existing job: must be refused
+                expect = self.rekey_expect(hp, old, newsp)
+                job.statepoint = newsp
+            elif how == "setitem":
                 k, v = self.rnd.choice(KEYS), copy.deepcopy(self.rnd.choice(VALS))
                 newsp[k] = json.loads(json.dumps(v))
                 expect = self.rekey_expect(hp, old, newsp)
@@ -281,6 +300,9 @@ class Harness:
         except DestinationExistsError:
             if expect != "exists":
                 return f"FAIL:DestinationExistsError but the destination does not exist in the model ({how})"
+            # the refused handle (and its copies) keeps the rejected value in memory: the properties only speak about the disk and
+            # about fresh handles after a failed operation, so these handles leave the live-handle checks
+            self.handles = [(i, h2) for i, h2 in self.handles if h2.id != old]
             return f"rekey {how} {old[:6]} -> DestinationExistsError"
         if expect == "exists":
             return f"FAIL:re-key onto an existing job did not raise DestinationExistsError ({how})"
